@@ -21,7 +21,7 @@ func init() {
 			"R2": "sentinel coverage per mutator; sibling assigners both reject an id that is already seated; exact batch validation path by path: AssignSeats rejects exactly a player named twice / a seat named twice / a seat held by somebody else / a player already seated and remembers accepted entries; RandomAssignSeats rejects exactly a seated or repeated id; assignment covers the whole batch, only after the capacity test / a successful draw of len(batch) empty seats",
 			"R3": "engine membership operations: no error exit after a bookkeeping write or a successful seat-manager assign/remove; no function returns as its error a call's error value on the path where it is known nil (inverted test)",
 			"R4": "paired updates: Seat ← GetSeatID(same id) after assignment; RemoveSeats(ids) with the ids that filtered the player list",
-			"R5": "capacity guards dominate buy-in and creation; buy-in only for an id not at the table and top-up only for one that is; each half of a batch update applied with its own list whenever non-empty",
+			"R5": "capacity guards dominate buy-in and creation; buy-in only for an id not at the table and top-up only for one that is; each half of a batch update applied with its own list whenever non-empty; the table is created with a seat manager and seat map of its own TableMaxSeatCount (and rule), its own meta, and its initial players added whenever there are some that fit; the seat map rebuilt after a leave has the same size",
 			"R6": "who-may-call seat-manager assign/remove; who-may-write PlayerStates/SeatMap/GamePlayerIndexes headers; leave filter keeps a player iff his id is not among the leaving ids, over the whole list; no in-place filtering; new seat map = one unset entry per seat",
 			"R8": "seat-manager look-ups path by path: each scan of the seats selects exactly the seat with the given id / the empty / occupied / eligible seats and yields that seat's own key; unknown id → (unset, not-found); RemoveSeats and JoinPlayers reject exactly unknown ids, collect exactly the seats found, and apply their update to every collected seat",
 			"R7": "IsIn=true and SeatManager.JoinPlayers([same id]) on the same paths of the same function; the join operation path by path: unknown id → not-found, no seat → invalid action, already in → no-op, otherwise marked in the table AND the seat manager told; the seated-in flag is written only as true by join / false at construction",
@@ -510,6 +510,8 @@ func checkC03Pairing(c *Ctx, et interface{}) {
 	checkSeatLookups(c, "R8")
 	checkJoinOperation(c, "R7")
 	checkReserveBranches(c, "R5")
+	checkCreationWiring(c, "R5")
+	checkTableLookups(c, "R5", "FindPlayerIdx")
 	checkNoKnownNilErrorReturn(c, "R3", func(f *ssa.Function) bool { return (inPkg(p, f, "") || inSeatManagerPkg(p, f)) && f.Parent() == nil }, 20)
 	checkSeatManagerConstruction(c, "R8")
 	checkRandomSeatDraw(c, "R2")
